@@ -322,6 +322,39 @@ example : Core.gglweProductDft [[[1]]] { base2k := 4, n := 1, colsIn := 1, colsO
     1 [[[9]]] = Core.gglweProductDft [[[1]]] { base2k := 4, n := 1, colsIn := 1, colsOut := 1, dsize := 1, dnum := 1, size := 1, cells := [[[[3]]]] }
     1 [[[0]]] := by decide
 
+/-- **Bridge for row expansion (key `dsize = 1`)**: the product `Core.expandRowCols` executes for column `col`
+(`Core.gglweProductDft aDft (t.at (col−1)) …`) has, at limb `l`, the phase `Σ_j a_j ⋆ phase(key row j)_l`; with the key rows of
+phase `s_col ⋆ s_j + e_j` this is the first summand of `row_expansion_identity` (for `dsize ≥ 2`: `C03.keyswitch_phase_dsize_gt1`
+through `gglweProductDft_is_ks`). -/
+theorem expand_product_phase_dsize1 (sk : List Poly) (a : List Col) (g : GGLWE) (res0 : List Col) (l : Nat)
+    (h1 : g.dsize = 1) (h0 : shapeOk g.n g.colsOut g.size res0 = true) (hc : 0 < g.colsOut) (hl : l < g.size)
+    (hM : ∀ j q, (g.toPMat.entry j q).length = g.n) :
+    Ks.phaseRow sk ((Core.gglweProductDft a g g.size res0).map (fun col => limbOr0 g.n col l)) =
+      sumPolys g.n ((List.range (min (g.colsIn * g.dnum) (mkBuf g.n g.colsIn (a.getD 0 []).length a).flat.length)).map (fun j =>
+        Hal.negMul ((mkBuf g.n g.colsIn (a.getD 0 []).length a).flat.getD j (zeroP g.n)) (Ks.phaseRow sk (Ks.rowLimb g.toPMat j l)))) := by
+  have s0 := (mkBuf_shape g.n g.colsOut g.size res0 h0).1
+  have h := C03.keyswitch_phase_dsize1 sk (mkBuf g.n g.colsOut g.size res0) (mkBuf g.n g.colsIn (a.getD 0 []).length a) g.toKey l
+    h1 s0.1 rfl hc hl hl hM
+  have e : Ks.gglweProductDft (mkBuf g.n g.colsOut g.size res0) (mkBuf g.n g.colsIn (a.getD 0 []).length a) g.toKey
+      = Hal.opVmp (mkBuf g.n g.colsOut g.size res0) (mkBuf g.n g.colsIn (a.getD 0 []).length a) g.toPMat 0 := by
+    unfold Ks.gglweProductDft
+    have h1' : g.toKey.dsize = 1 := h1
+    simp only [h1', if_true]
+    rfl
+  have v := Ks.opVmp_spec (mkBuf g.n g.colsOut g.size res0) (mkBuf g.n g.colsIn (a.getD 0 []).length a) g.toPMat 0 s0.1
+  have hb : Ks.bufRow (Ks.gglweProductDft (mkBuf g.n g.colsOut g.size res0) (mkBuf g.n g.colsIn (a.getD 0 []).length a) g.toKey) l
+      = (Core.gglweProductDft a g g.size res0).map (fun col => limbOr0 g.n col l) := by
+    unfold Core.gglweProductDft Ks.bufRow
+    simp only [List.map_map]
+    rw [e, v.2.1, v.2.2.2.1]
+    rfl
+  rw [← hb]
+  exact h
+
+example : Ks.phaseRow [] ((Core.gglweProductDft [[[2]]]
+      { base2k := 4, n := 1, colsIn := 1, colsOut := 1, dsize := 1, dnum := 1, size := 1, cells := [[[[3]]]] } 1 [[[9]]]).map
+        (fun col => limbOr0 1 col 0)) = [6] := by decide
+
 /-
 NOT PROVED: the phase statement of `Core.epInternal` for `dsize > 1` (its loop differs from `gglwe_product_dft` only by
 the missing `.min(dnum)` on the digit buffer, which `vmp` truncates anyway — `C07.vmp_row_truncation`; the accumulation
